@@ -69,6 +69,16 @@ func IntRange(tag string, lo, hi int) int {
 func Bool(tag string) bool { return val(tag) != 0 }
 func Byte(tag string) byte { return byte(val(tag)) }
 
+// ByteIn returns a byte constrained to the given alphabet.
+func ByteIn(tag string, alphabet string) byte {
+	if len(alphabet) == 1 {
+		return alphabet[0]
+	}
+	b := byte(val(tag))
+	Assume(strings.IndexByte(alphabet, b) >= 0)
+	return b
+}
+
 func Choice(tag string, n int) int {
 	if n <= 1 {
 		return 0
@@ -188,3 +198,14 @@ func ReplayMain(hs map[string]func()) {
 	}
 	Run(name, f)
 }
+
+// Lazy returns a value whose generator runs when the value is first inspected
+// (engine); natively the generator runs at once.
+func Lazy(gen func() any) any { return gen() }
+
+// Same reports whether a and b are the very same not yet inspected lazy value
+// (engine only; natively always false, so callers fall back to a full comparison).
+func Same(a, b any) bool { return false }
+
+// IsLazy reports whether a is a not yet inspected lazy value (engine only).
+func IsLazy(a any) bool { return false }
